@@ -167,3 +167,17 @@ Definition is_okend o := match o with FnEnd _ true _ => true | _ => false end.
 Definition is_failend o := match o with FnEnd _ false _ => true | _ => false end.
 Definition is_wret o := match o with WaitRet _ _ _ => true | _ => false end.
 Definition is_ended o := match o with DaemonEnded => true | _ => false end.
+
+(* ---- the serial monitor: state = (is a call open?, number of calls started) -- *)
+Fixpoint serial (open : bool) (n : nat) (tr : list obs) : option (bool * nat) :=
+  match tr with
+  | [] => Some (open, n)
+  | FnStart c set _ :: r =>
+      if open then None else
+      match set with
+      | [] => None
+      | _ => if Nat.eqb c n then serial true (S n) r else None
+      end
+  | FnEnd c _ _ :: r => if open && Nat.eqb (S c) n then serial false n r else None
+  | _ :: r => serial open n r
+  end.
